@@ -404,7 +404,15 @@ let oracle_c18_case script trace =
   (* round 6: the ApiUser objects as the script's operations leave them; `user` is the list of the object the direct ops use *)
   let ow = ref (pmu_world0 pmu_core0) and ouid = ref (-1) and oconns : (int, pmu_conn) Hashtbl.t = Hashtbl.create 7 in
   let olds : pm_entry list list ref = ref [] in        (* earlier permission lists of that object *)
-  let osync () = if !ouid >= 0 then begin
+  let uhist : (int, pm_entry list list) Hashtbl.t = Hashtbl.create 7 in      (* per user OBJECT: the lists it has had, newest first *)
+  let osync () =
+    List.iteri (fun i _ ->
+        let cur = pmu_perms_of !ow.pmu_c (pm_nat_of_int i) in
+        match Hashtbl.find_opt uhist i with
+        | Some (x :: _) when x = cur -> ()
+        | Some l -> Hashtbl.replace uhist i (cur :: l)
+        | None -> Hashtbl.replace uhist i [cur]) !ow.pmu_c.pmu_heap;
+    if !ouid >= 0 then begin
       let p = pmu_perms_of !ow.pmu_c (pm_nat_of_int !ouid) in
       if p <> !user then olds := !user :: !olds;
       user := p end in
@@ -424,7 +432,7 @@ let oracle_c18_case script trace =
     | Some ("pm_svc", a) -> specs := pm_spec_of true a :: !specs
     | Some ("pm_user", a) -> user := pm_user_of (str a "perms" "-")
     | Some ("pm_load", _) -> inv := pm_build_inv !specs; ignore (next li);
-      ignore (pmu_do_create ow ouid pmu_pmuser "pw" "" !user)
+      ignore (pmu_do_create ow ouid pmu_pmuser "pw" "" !user); osync ()
     | Some ("pm_auser", a) -> ignore (next li); ignore (pmu_do_create ow ouid (pm_hex a "name") (pm_hex a "pass") (pm_hex a "cn") (pmu_entries a)); osync ()
     | Some ("pm_uset", a) -> ignore (next li); let p = pmu_entries a in ignore (pmu_named_op ow a (fun n -> PmuSet (n, p))); osync ()
     | Some ("pm_urestore", a) -> ignore (next li); ignore (pmu_named_op ow a (fun n -> PmuRestore n)); osync ()
@@ -455,7 +463,12 @@ let oracle_c18_case script trace =
               match who, obs with
               | None, Some _ -> fail (Printf.sprintf "step=%d identity: request-served-without-valid-credentials-of-its-own" li)
               | Some _, None -> fail (Printf.sprintf "step=%d identity: valid-credentials-answered-401" li)
-              | _, _ -> fail (Printf.sprintf "step=%d identity: not-decided-on-the-permissions-of-the-user-this-request-identifies" li)
+              | Some u, Some o ->
+                let earlier = match Hashtbl.find_opt uhist (pm_int_of_nat u) with Some (_ :: r) -> r | _ -> [] in
+                if List.exists (fun l -> judge l o) earlier then
+                  fail (Printf.sprintf "step=%d connection request of the right user, but decided-on-an-earlier-permission-list" li)
+                else fail (Printf.sprintf "step=%d identity: not-decided-on-the-permissions-of-the-user-this-request-identifies" li)
+              | _, _ -> ()
             end))
     | Some ("pm_match", a) ->
       (match next li with
